@@ -190,6 +190,20 @@ def run_server(spec: dict, seed: int, conf: dict | None = None, replay_actions: 
     plan = list(conf["plan"]) if conf.get("plan") is not None else None
     try:
         async def main(loop: VLoop) -> None:
+            # watchdog: a control loop that spins without letting virtual time advance never becomes quiescent
+            spin = [0, loop.time()]
+            inner_once = loop._run_once
+
+            def guarded_once() -> None:
+                if loop.time() == spin[1]:
+                    spin[0] += 1
+                    if spin[0] > 60000:
+                        raise live.RunawayRun()
+                else:
+                    spin[0], spin[1] = 0, loop.time()
+                inner_once()
+
+            loop._run_once = guarded_once  # type: ignore[method-assign]
             drv.quiet_ev = asyncio.Event()
             t0 = loop.time()
             stack = Stack.build(conf.get("store", "memory"), idle_timeout=conf.get("idle_timeout"))
@@ -229,7 +243,8 @@ def run_server(spec: dict, seed: int, conf: dict | None = None, replay_actions: 
                     whens = [h._when for h in loop._scheduled if not h._cancelled]  # type: ignore[attr-defined]
                     has_timer = bool(whens)
                     if plan is None and whens and min(whens) - t0 > horizon:
-                        st_out.end = "horizon"  # nothing is due within the observation window
+                        st_out.end = "horizon"  # nothing is due within the observation window: observed up to the horizon
+                        st_out.final["observed_until"] = horizon
                         break
                     if plan is not None:
                         if not plan:
@@ -301,9 +316,10 @@ def run_server(spec: dict, seed: int, conf: dict | None = None, replay_actions: 
                         raise ValueError(kind)
             finally:
                 ph = await stack.handler("h1")
+                until = st_out.final.get("observed_until")
                 st_out.final = _row(ph)
                 st_out.final["live"] = stack.active(ph.run_id)
-                st_out.final["t"] = loop.time() - t0
+                st_out.final["t"] = max(loop.time() - t0, until or 0.0)
                 st_out.final["t0"] = t0
                 try:
                     st_out.final["persisted"] = [enc.tick(t) for t in await stack.ticks(ph.run_id)]
@@ -554,8 +570,8 @@ def mon_timers(tr: STrace, case: Any) -> list[Violation]:
                 continue
             if status in TERMINAL:
                 continue
-            if t_end < e.due - EPS:
-                continue  # the observation window ended before the timer was due
+            if t_end < e.due - EPS and tr.end != "stuck":
+                continue  # the observation window ended before the timer was due ("stuck" = nothing is scheduled any more)
             vs.append(Violation(f"C14/{e.kind}_lost_{where}",
                                 f"{desc} never fired: at t={t_end:g} ({tr.end}) the handler is '{status}', in memory: {tr.final.get('live')}; {ctx or 'the run never left memory'}",
                                 case))
